@@ -263,7 +263,10 @@ def run(ctx, prog):
             return (not problems) if not inc else (False if problems else None)
         ctx.ob('C13.N5', 'handle-verbatim|' + sc, verdict(res['key']), im.where, '; '.join(res['key'][:2]) or 'not decided: ' + '; '.join(res['complete'][:2]),
                sample='%d returning paths install under the unmodified handle parameter' % info['returning'])
-        ctx.ob('C13.N5', 'name-normalised|' + sc, verdict(res['name-match']), im.where, '; '.join(res['name-match'][:2]) or 'not decided: ' + '; '.join(res['complete'][:2]),
+        nm_v = verdict(res['name-match'])
+        if nm_v is True and res['name-match-undecided']:
+            nm_v = None
+        ctx.ob('C13.N5', 'name-normalised|' + sc, nm_v, im.where, '; '.join(res['name-match'][:2]) or 'not decided: ' + '; '.join((res['name-match-undecided'] + res['complete'])[:2]),
                sample='each installed candidate is the one whose name equals masa_map(name parameter)')
         unmatched = res['one-install'] + res['fatal-registers'] + sorted(set(res['raw-name']))
         ctx.ob('C13.N5', 'no-match-is-fatal|' + sc, verdict(unmatched), im.where, '; '.join(unmatched[:2]) or 'not decided: ' + '; '.join(res['complete'][:2]),
